@@ -21,8 +21,11 @@ META = {
     "technique": "TLA+ spec (JointCond) model-checked with TLC; every TLC-generated conditioning behaviour replayed into JointDistribution with a closed-form oracle",
 }
 
-import random, warnings
+import json, os, random, warnings
 import numpy as np
+
+VERIF_ROOT = os.path.dirname(os.path.dirname(os.path.dirname(os.path.dirname(os.path.abspath(__file__)))))
+HARNESS = os.path.join(VERIF_ROOT, "harness")
 
 RTOL = 1e-9
 
@@ -68,10 +71,15 @@ def _eval_all(ctx, obj, R, fixedvals, free, sig, case, rnd):
             except Exception as ex:
                 ctx.mismatch(sig + "/logd_pos_refused", case, "well-formed positional evaluation refused: %s" % str(ex)[:150])
                 return False
-            # mixed: first positional, rest keyword
+            # mixed: first positional, rest keyword.  The property speaks of passing "by position or by keyword"; whether a
+            # mixture is accepted is not stated (a refusal is logged), but a NUMBER that is returned must be the right one
             if len(names) >= 2:
-                got = obj.logd(kw[names[0]], **{n: kw[n] for n in names[1:]})
-                if not _close(got, exp):
+                try:
+                    got = obj.logd(kw[names[0]], **{n: kw[n] for n in names[1:]})
+                except Exception as ex:
+                    ctx.observations["mixed_passing_refused"] = ctx.observations.get("mixed_passing_refused", 0) + 1
+                    got = None
+                if got is not None and not _close(got, exp):
                     ctx.mismatch(sig + "/logd_mixed", case, "log-density with mixed positional/keyword passing differs", exp, got)
                     return False
         # stacked view of a joint
@@ -139,13 +147,16 @@ def replay_case(ctx, case, r, rnd):
                 if mode == "kw":
                     obj2 = obj(**{jg.name(v): vals0[v] for v in S})
                 else:
-                    # positional: follows the order of the object's parameter names (spec: free variables in factor order)
+                    # positional arguments "follow the order of the parameter names" (docstring of _parse_args_add_to_kwargs).
+                    # The spec's positional step fixes the first |S| free variables in factor order; that the parameter
+                    # names are listed in factor order is what the code does but is documented nowhere: if they are not, the
+                    # step is made by keyword (logged), so the behaviour can still be followed.
                     exp_prefix = [jg.name(v) for v in free[:len(S)]]
                     if names is not None and names[:len(S)] != exp_prefix:
-                        ctx.mismatch(sig + "/param_order", case, "positional order of the parameter names differs from the factor order",
-                                     exp_prefix, names)
-                        return
-                    obj2 = obj(*[vals0[v] for v in S])
+                        ctx.observations["param_order_not_factor_order"] = ctx.observations.get("param_order_not_factor_order", 0) + 1
+                        obj2 = obj(**{jg.name(v): vals0[v] for v in S})
+                    else:
+                        obj2 = obj(*[vals0[v] for v in S])
         except Exception as ex:
             ctx.mismatch(sig + "/refused/" + type(obj).__name__, case,
                          "well-formed conditioning of a %s on %s (%s) refused: %s" % (type(obj).__name__, [jg.name(v) for v in S], mode, str(ex)[:160]))
@@ -204,30 +215,45 @@ def install_recorder(rec):
     install_joint(rec)
 
 
+LAST_PYTEST = {}       # outcome of the last recorded pytest run (logged as an observation)
+
+
 def record_repo_tests(tests=("tests/test_joint_distribution.py", "tests/test_density.py", "tests/test_posterior.py",
                              "tests/test_bayesian_inversion.py"), timeout=2400):
-    import json, os, subprocess, sys
+    import subprocess, sys
     from cuqiverif.core import MachineryError
     from cuqiverif import tlc
     repo = os.environ.get("CUQIVERIF_REPO", "/repo")
     os.makedirs(tlc.WORK, exist_ok=True)
     out = os.path.join(tlc.WORK, "c01_repo_traces_%d.json" % os.getpid())
+    import shutil
+    cwd = os.path.join(tlc.WORK, "c01_pytest_cwd_%d" % os.getpid())      # tests may write relative to the current directory
+    os.makedirs(cwd, exist_ok=True)
     env = dict(os.environ, CUQIPY_VERIF="1", CUQIVERIF_TRACE_OUT=out, CUQIVERIF_RECORD="c01", CUQIVERIF_MAX_EVENTS="400",
-               CUQIVERIF_MAX_TRACES="1500", PYTHONPATH=os.path.join("/verif", "harness") + os.pathsep + repo, TQDM_DISABLE="1")
-    p = subprocess.run([sys.executable, "-m", "pytest", "-q", "-p", "no:cacheprovider", "-p", "cuqiverif.pytest_recorder",
-                        "--timeout=900"] + list(tests), cwd=repo, env=env, stdout=subprocess.PIPE,
-                       stderr=subprocess.STDOUT, text=True, timeout=timeout)
-    if not os.path.exists(out):
-        raise MachineryError("recorder plugin produced no trace file; pytest tail:\n" + "\n".join(p.stdout.splitlines()[-15:]))
+               CUQIVERIF_MAX_TRACES="1500", PYTHONPATH=HARNESS + os.pathsep + repo, TQDM_DISABLE="1", PYTHONDONTWRITEBYTECODE="1")
     try:
+        try:
+            p = subprocess.run([sys.executable, "-m", "pytest", "-q", "-p", "no:cacheprovider", "-p", "cuqiverif.pytest_recorder",
+                                "--timeout=900", "--rootdir", repo] + [os.path.join(repo, t) for t in tests], cwd=cwd, env=env,
+                               stdout=subprocess.PIPE, stderr=subprocess.STDOUT, text=True, timeout=timeout)
+        except subprocess.TimeoutExpired:
+            raise MachineryError("recording the repository's joint-distribution tests timed out after %ss" % timeout)
+        if not os.path.exists(out):
+            raise MachineryError("recorder plugin produced no trace file; pytest tail:\n" + "\n".join(p.stdout.splitlines()[-15:]))
+        LAST_PYTEST.update(returncode=p.returncode,
+                           failed=[l.split(" ")[1] for l in p.stdout.splitlines() if l.startswith("FAILED ") and " " in l][:20])
         return json.load(open(out))
     finally:
-        os.remove(out)
+        shutil.rmtree(cwd, ignore_errors=True)
+        if os.path.exists(out):
+            os.remove(out)
 
 
 def validate_lineages(ctx, traces, label):
     from cuqiverif import trace
+    n_all = len(traces)
     traces = [t for t in traces if t["events"] and t["events"][0].get("e") == "construct" and len(t["events"]) > 1]
+    ctx.observations["lineages/" + label] = {"recorded": n_all, "with_events_after_construct": len(traces)}
     if not traces:
         return []
     verdicts = trace.validate(ctx, traces, "TraceJointCond", TRACE_CFG, label="c01trace", chunk=400)
@@ -249,9 +275,10 @@ def run(ctx):
     rnd = random.Random(ctx.seed)
     cases = []
     for cfg in ("n2", "n3"):
-        res = ctx.tlc("JointCond", cfg="JointCond.%s.cfg" % cfg, workers=16)
+        res = ctx.tlc("JointCond", cfg="JointCond.%s.cfg" % cfg, workers=16, require_actions=["Condition"])
         ctx.model_must_hold(res, "JointCond." + cfg)
         cases += res.cases
+    cases.sort(key=lambda c: json.dumps(c, sort_keys=True))      # TLC's workers emit in scheduling order: fix it for the seeded choice
     res4 = ctx.tlc("JointCond", cfg="JointCond.n4.cfg", workers=16, timeout=1200)
     ctx.model_must_hold(res4, "JointCond.n4")
     for cfg in ("dev_drop", "dev_twice"):
@@ -261,7 +288,10 @@ def run(ctx):
     nsim = 150 if ctx.tier == "quick" else 4000
     sim = ctx.tlc("JointCond", cfg="JointCond.n4sim.cfg", mode="simulate", simulate="num=%d" % nsim, depth=6, workers=1,
                   seed=ctx.seed + 1, timeout=1200)
+    ctx.model_must_hold(sim, "JointCond.n4sim")
     sim_cases = sim.cases
+    if not sim_cases:
+        raise MachineryError("TLC simulation of JointCond (N = 4) emitted no behaviour")
     n3 = [c for c in cases if c["n"] == 3]
     n2 = [c for c in cases if c["n"] == 2]
     if ctx.tier == "quick":
@@ -287,7 +317,7 @@ def run(ctx):
     good = validate_lineages(ctx, rec.trace_list(), "replays")
     if ctx.tier == "thorough":
         rt = record_repo_tests()
-        ctx.observe("repo_test_lineages", len(rt))
+        ctx.observe("repo_test_lineages", {"traces": len(rt), "pytest": dict(LAST_PYTEST)})
         validate_lineages(ctx, rt, "repo-tests")
     # binding self-test
     g0 = next((t for t in good if any(e["e"] == "logd" and e["outcome"] == "value" and e["given"] for e in t["events"]) and
@@ -327,4 +357,10 @@ def replay(ctx, case):
     rnd = random.Random(0)
     if case.get("kind") == "bp":
         return bayesian_problem_cases(ctx, rnd)
+    if case.get("kind") in ("lineage", "model") or "par" not in case or "hist" not in case:
+        # recorded lineages and model runs are regenerated, not stored: the whole check is re-run
+        if not getattr(ctx, "_c01_rerun", False):
+            ctx._c01_rerun = True
+            run(ctx)
+        return
     replay_case(ctx, case, case.get("r", 0), rnd)
